@@ -434,8 +434,16 @@ impl<'a> Exec<'a> {
         if !bytes.starts_with(&self.durable) {
             return Err((format!("the previous revision is not an unmodified prefix of the saved bytes ({})", self.flags()), format!("previous {} bytes, new {} bytes", self.durable.len(), bytes.len())));
         }
-        // reload a fresh document from the saved bytes and compare with the model
-        let reloaded = match open_plain(&bytes, self.case.cached, &self.case.base.password) {
+        // reload a fresh document from the saved bytes and compare with the model; the reader's
+        // configuration alternates between strict and tolerant, cached and uncached
+        let (tolerant, cached) = match self.out.saves_ok % 4 {
+            0 => (false, self.case.cached),
+            1 => (true, !self.case.cached),
+            2 => (true, self.case.cached),
+            _ => (false, !self.case.cached),
+        };
+        let ctl = SimCtl::new(cached, cached);
+        let reloaded = match ops::open(&bytes, &ctl, tolerant, &self.case.base.password) {
             Ok(f) => f,
             Err(e) => return Err((format!("saved bytes do not load: {} ({})", error_kind(&e), self.flags()), format!("{}", e).chars().take(300).collect())),
         };
@@ -465,7 +473,10 @@ impl<'a> Exec<'a> {
                     continue;
                 }
                 let got = ops::exec(&reloaded, &res, false, &Op::Resolve(*id));
-                if !got.same(a) {
+                // "no such object" has three spellings (never defined / free / beyond the table); a number
+                // that was undefined before and is written as a free entry by save is still no object
+                let missing = |x: &Answer| !x.ok && (x.text.contains("NullRef") || x.text.contains("FreeObject") || x.text.contains("UnspecifiedXRefEntry"));
+                if !got.same(a) && !(missing(&got) && missing(a)) {
                     return Err((format!("after reload an untouched object changed ({})", self.flags()), format!("object {}: before {} / after {}", id, a.text, got.text)));
                 }
             }
@@ -749,6 +760,25 @@ impl C09 {
                 std::process::exit(2);
             }
             bases.push(Arc::new(d));
+        }
+        // bases with an update history of their own: several revisions, freed and reused numbers
+        // (generations above 0), objects moved between direct and compressed storage, /Prev chains
+        let n_hist = if ctx.tier == Tier::Quick { 12 } else { 64 };
+        for k in 0..n_hist {
+            let mut rng = Rng::new(run_seed(ctx.verif_seed, "C09/history-base", k));
+            let mut h = crate::c02::gen_history(&mut rng, Tier::Quick);
+            h.relaxed_reuse = false;
+            let spec = crate::c02::compile(&h);
+            let w = docgen::write_doc(&spec);
+            if let Err(e) = docgen::self_check(&spec, &w) {
+                eprintln!("HARNESS-ERROR: writer self-check failed (C09 history base {}): {}", k, e);
+                std::process::exit(2);
+            }
+            let label = format!("hist{}-{}rev{}", k, h.revs.len(), if h.junk.is_empty() { "" } else { "-junk" });
+            let d = Doc::from_bytes(&label, "generated", w.bytes, b"");
+            if d.inv.loadable {
+                bases.push(Arc::new(d));
+            }
         }
         self.pool = Some(pool);
         self.bases = bases;
